@@ -11,7 +11,7 @@ UNITS = [dict(
 )]
 UNITS.append(dict(
     name='dirs', harness='harness/c19_fs.cpp', sources=SRC + ['repo:src/Directory.cpp', 'repo:src/Error.cpp', 'repo:src/Mutex.cpp'], native=False,
-    defines={'quick': {}, 'thorough': {}}, entries=['create', 'unlink_tree', 'rename_'],
+    defines={'quick': {}, 'thorough': {}}, entries=['create', 'unlink_tree', 'rename_', 'copy_'],
     opts={'all': {'unwind': 64}}, split={'quick': 8, 'thorough': 16}, budget={'quick': 280, 'thorough': 2600}, validate=[],
 ))
 BOUNDS = {
